@@ -35,10 +35,13 @@ use verif_harness::{BadCase, Case, main_loop};
 // ---------------------------------------------------------------------------
 // event kinds added by the harness (compio_tls::verif kinds are 1..7)
 
+// calls compio-tls makes on the stream it was given (logged by `Logged`)
 const T_READ: u32 = 101; // a = capacity, b = result kind, c = bytes
 const T_WRITE: u32 = 102; // a = length offered
 const T_FLUSH: u32 = 103;
 const T_CLOSE: u32 = 104;
+// calls on the in-memory pipe itself, logged only when AsyncStream sits in between
+const RAW: u32 = 100;
 const TASK_POLL: u32 = 110; // a = 0 begin, 1 end ready, 2 end pending
 const APP: u32 = 120; // a = step, b = 0 begin / 1 ok / 2 err, c = count
 
@@ -98,6 +101,7 @@ struct EndInner {
     unflushed: usize,         // bytes accepted since the last completed flush (ghost)
     flush_in_flight: bool,    // last flush answered Pending
     wait_owing: u64,          // reads that started waiting while bytes were held back
+    raw_log: bool,            // emit the calls on the pipe (kinds 201..204)
 }
 
 #[derive(Clone)]
@@ -113,15 +117,21 @@ fn lim(v: &[usize], i: &mut usize) -> usize {
 }
 
 impl EndInner {
+    fn emit(&self, kind: u32, a: u64, b: u64, c: u64) {
+        if self.raw_log {
+            verif::emit(kind + RAW, a, b, c);
+        }
+    }
+
     fn gate(&mut self, kind: u32, len: usize, waker: &Waker) -> Option<Poll<io::Result<usize>>> {
         let w = &self.watch;
         w.calls.set(w.calls.get() + 1);
         if w.calls.get() > w.budget {
-            verif::emit(kind, len as u64, R_ERR, 0);
+            self.emit(kind, len as u64, R_ERR, 0);
             return Some(Poll::Ready(Err(io::Error::other("transport call budget exceeded"))));
         }
         if self.cfg.pend.pop_front().unwrap_or(false) {
-            verif::emit(kind, len as u64, R_PEND_SCRIPT, 0);
+            self.emit(kind, len as u64, R_PEND_SCRIPT, 0);
             if kind == T_FLUSH {
                 self.flush_in_flight = true;
             }
@@ -138,11 +148,11 @@ impl EndInner {
         let mut inc = self.inc.borrow_mut();
         if inc.q.is_empty() && !dst.is_empty() {
             if inc.closed {
-                verif::emit(T_READ, dst.len() as u64, R_OK, 0);
+                self.emit(T_READ, dst.len() as u64, R_OK, 0);
                 return Poll::Ready(Ok(0));
             }
             inc.rwaker = Some(waker.clone());
-            verif::emit(T_READ, dst.len() as u64, R_PEND_NAT, 0);
+            self.emit(T_READ, dst.len() as u64, R_PEND_NAT, 0);
             if !self.stage.is_empty() && !self.flush_in_flight {
                 // waiting for input while holding output back
                 self.wait_owing += 1;
@@ -156,7 +166,7 @@ impl EndInner {
         if let Some(w) = inc.wwaker.take() {
             w.wake();
         }
-        verif::emit(T_READ, dst.len() as u64, R_OK, n as u64);
+        self.emit(T_READ, dst.len() as u64, R_OK, n as u64);
         Poll::Ready(Ok(n))
     }
 
@@ -187,12 +197,12 @@ impl EndInner {
             return r;
         }
         if self.out.borrow().closed {
-            verif::emit(T_WRITE, src.len() as u64, R_ERR, 0);
+            self.emit(T_WRITE, src.len() as u64, R_ERR, 0);
             return Poll::Ready(Err(io::Error::from(io::ErrorKind::BrokenPipe)));
         }
         let want = src.len().min(lim(&self.cfg.wlim, &mut self.wi));
         if want == 0 {
-            verif::emit(T_WRITE, src.len() as u64, R_OK, 0);
+            self.emit(T_WRITE, src.len() as u64, R_OK, 0);
             return Poll::Ready(Ok(0));
         }
         let n = if self.cfg.buffered {
@@ -201,13 +211,13 @@ impl EndInner {
         } else {
             let n = self.push_out(waker, want, false, src);
             if n == 0 {
-                verif::emit(T_WRITE, src.len() as u64, R_PEND_NAT, 0);
+                self.emit(T_WRITE, src.len() as u64, R_PEND_NAT, 0);
                 return Poll::Pending;
             }
             n
         };
         self.unflushed += n;
-        verif::emit(T_WRITE, src.len() as u64, R_OK, n as u64);
+        self.emit(T_WRITE, src.len() as u64, R_OK, n as u64);
         Poll::Ready(Ok(n))
     }
 
@@ -220,13 +230,13 @@ impl EndInner {
             self.push_out(waker, want, true, &[]);
             if !self.stage.is_empty() {
                 self.flush_in_flight = true;
-                verif::emit(T_FLUSH, 0, R_PEND_NAT, 0);
+                self.emit(T_FLUSH, 0, R_PEND_NAT, 0);
                 return Poll::Pending;
             }
         }
         self.unflushed = 0;
         self.flush_in_flight = false;
-        verif::emit(T_FLUSH, 0, R_OK, 0);
+        self.emit(T_FLUSH, 0, R_OK, 0);
         Poll::Ready(Ok(0))
     }
 
@@ -238,7 +248,7 @@ impl EndInner {
             let want = self.stage.len();
             self.push_out(waker, want, true, &[]);
             if !self.stage.is_empty() {
-                verif::emit(T_CLOSE, 0, R_PEND_NAT, 0);
+                self.emit(T_CLOSE, 0, R_PEND_NAT, 0);
                 return Poll::Pending;
             }
         }
@@ -247,12 +257,12 @@ impl EndInner {
         if let Some(w) = out.rwaker.take() {
             w.wake();
         }
-        verif::emit(T_CLOSE, 0, R_OK, 0);
+        self.emit(T_CLOSE, 0, R_OK, 0);
         Poll::Ready(Ok(0))
     }
 }
 
-fn duplex(ccfg: EndCfg, scfg: EndCfg, watch: &Rc<Watch>) -> (End, End) {
+fn duplex(ccfg: EndCfg, scfg: EndCfg, watch: &Rc<Watch>, raw_log: bool) -> (End, End) {
     let c2s = Rc::new(RefCell::new(Dir { cap: ccfg.cap, ..Default::default() }));
     let s2c = Rc::new(RefCell::new(Dir { cap: scfg.cap, ..Default::default() }));
     let mk = |side, cfg, inc: &Rc<RefCell<Dir>>, out: &Rc<RefCell<Dir>>| {
@@ -268,6 +278,7 @@ fn duplex(ccfg: EndCfg, scfg: EndCfg, watch: &Rc<Watch>) -> (End, End) {
             unflushed: 0,
             flush_in_flight: false,
             wait_owing: 0,
+            raw_log,
         })))
     };
     (mk(1, ccfg, &s2c, &c2s), mk(2, scfg, &c2s, &s2c))
@@ -291,6 +302,46 @@ impl AsyncWrite for End {
 
     fn poll_close(self: Pin<&mut Self>, cx: &mut Context<'_>) -> Poll<io::Result<()>> {
         self.0.borrow_mut().try_close(cx.waker()).map(|r| r.map(|_| ()))
+    }
+}
+
+/// What compio-tls sees: logs every call on the stream handed to the connector /
+/// acceptor with its result.
+struct Logged<S>(S);
+
+fn log_poll<T>(kind: u32, len: usize, r: &Poll<io::Result<T>>, n: impl FnOnce(&T) -> u64) {
+    match r {
+        Poll::Ready(Ok(v)) => verif::emit(kind, len as u64, R_OK, n(v)),
+        Poll::Ready(Err(_)) => verif::emit(kind, len as u64, R_ERR, 0),
+        Poll::Pending => verif::emit(kind, len as u64, R_PEND_SCRIPT, 0),
+    }
+}
+
+impl<S: AsyncRead + Unpin> AsyncRead for Logged<S> {
+    fn poll_read(mut self: Pin<&mut Self>, cx: &mut Context<'_>, buf: &mut [u8]) -> Poll<io::Result<usize>> {
+        let r = Pin::new(&mut self.0).poll_read(cx, buf);
+        log_poll(T_READ, buf.len(), &r, |n| *n as u64);
+        r
+    }
+}
+
+impl<S: AsyncWrite + Unpin> AsyncWrite for Logged<S> {
+    fn poll_write(mut self: Pin<&mut Self>, cx: &mut Context<'_>, buf: &[u8]) -> Poll<io::Result<usize>> {
+        let r = Pin::new(&mut self.0).poll_write(cx, buf);
+        log_poll(T_WRITE, buf.len(), &r, |n| *n as u64);
+        r
+    }
+
+    fn poll_flush(mut self: Pin<&mut Self>, cx: &mut Context<'_>) -> Poll<io::Result<()>> {
+        let r = Pin::new(&mut self.0).poll_flush(cx);
+        log_poll(T_FLUSH, 0, &r, |_| 0);
+        r
+    }
+
+    fn poll_close(mut self: Pin<&mut Self>, cx: &mut Context<'_>) -> Poll<io::Result<()>> {
+        let r = Pin::new(&mut self.0).poll_close(cx);
+        log_poll(T_CLOSE, 0, &r, |_| 0);
+        r
     }
 }
 
@@ -638,7 +689,7 @@ fn run_tls(c: &mut Case) -> Result<Vec<u64>, BadCase> {
     let app = Rc::new(App { payload: payload(seed, len), wchunks, lockstep, flush_each, crbuf, srbuf });
     let budget = 40_000 + 200 * len as u64;
     let watch = Rc::new(Watch { calls: Cell::new(0), budget });
-    let (cend, send) = duplex(ccfg, scfg, &watch);
+    let (cend, send) = duplex(ccfg, scfg, &watch, wrap == 1);
     let (con, acc) = if backend == 0 { native_pair() } else { rustls_pair() };
     let outs = [Rc::new(RefCell::new(SideOut::default())), Rc::new(RefCell::new(SideOut::default()))];
 
@@ -646,16 +697,16 @@ fn run_tls(c: &mut Case) -> Result<Vec<u64>, BadCase> {
     verif::start();
     let verdict = rt.block_on(async {
         if wrap == 0 {
-            compio_runtime::spawn(Tagged { side: 1, fut: Box::pin(client(con, cend.clone(), app.clone(), outs[0].clone())) })
+            compio_runtime::spawn(Tagged { side: 1, fut: Box::pin(client(con, Logged(cend.clone()), app.clone(), outs[0].clone())) })
                 .detach();
-            compio_runtime::spawn(Tagged { side: 2, fut: Box::pin(server(acc, send.clone(), app.clone(), outs[1].clone())) })
+            compio_runtime::spawn(Tagged { side: 2, fut: Box::pin(server(acc, Logged(send.clone()), app.clone(), outs[1].clone())) })
                 .detach();
         } else {
             use compio_io::compat::AsyncStream;
             let cs = Box::pin(AsyncStream::new((CRead(cend.clone()), CWrite(cend.clone()))));
             let ss = Box::pin(AsyncStream::new((CRead(send.clone()), CWrite(send.clone()))));
-            compio_runtime::spawn(Tagged { side: 1, fut: Box::pin(client(con, cs, app.clone(), outs[0].clone())) }).detach();
-            compio_runtime::spawn(Tagged { side: 2, fut: Box::pin(server(acc, ss, app.clone(), outs[1].clone())) }).detach();
+            compio_runtime::spawn(Tagged { side: 1, fut: Box::pin(client(con, Logged(cs), app.clone(), outs[0].clone())) }).detach();
+            compio_runtime::spawn(Tagged { side: 2, fut: Box::pin(server(acc, Logged(ss), app.clone(), outs[1].clone())) }).detach();
         }
         Watchdog { watch: watch.clone(), outs: outs.clone(), last: 0, idle: 0 }.await
     });
@@ -1107,6 +1158,8 @@ mod ws {
                 }
                 Ok(_) => {}
                 Err(compio_ws::tungstenite::Error::ConnectionClosed) => {
+                    // the closing handshake is over: close the (TLS) stream below
+                    let _ = futures_util::AsyncWriteExt::close(ws.get_mut()).await;
                     let mut o = out.borrow_mut();
                     o.close_ok = true;
                     o.done = true;
